@@ -8,7 +8,7 @@ use serde_json::json;
 use syn::visit::Visit;
 
 const SERVICE_NAMES: &[&str] = &["Ledger", "HTTPGateway", "ledger_v2", "Svc2", "X", "FooBarBaz", "Result", "Service", "a_b_c", "IO"];
-const METHOD_NAMES: &[&str] = &["Post", "GetItem", "get_item", "Type", "Match", "Move", "Loop", "Async", "Watch2", "A", "ListAll", "list_all_v2", "Send", "Unary", "Self_", "Box"];
+const METHOD_NAMES: &[&str] = &["Post", "GetItem", "Getitem", "get_item", "Type", "Match", "Move", "Loop", "Async", "Watch2", "A", "ListAll", "list_all_v2", "Send", "Unary", "Self_", "Box"];
 
 struct MethodSpec {
     name: String,
@@ -22,8 +22,50 @@ struct ServiceSpec {
     methods: Vec<MethodSpec>,
 }
 
+/// The generic `CodeGenBuilder` entry point with its defaults (used by code generators that are not
+/// prost-based): the package is part of the path unless switched off.
+fn codegen_builder_case(ctx: &mut Ctx, i: u64) {
+    let emit = i % 3 != 2;
+    let explicit = i % 3 == 1;
+    let pkg = ["pkg.v1", "acme", ""][(i as usize / 3) % 3];
+    ctx.begin("codegen-builder", json!({"package": pkg, "emit_package": if explicit || !emit { json!(emit) } else { json!("default") }}));
+    let svc = tonic_build::manual::Service::builder()
+        .name("Svc")
+        .package(pkg)
+        .method(tonic_build::manual::Method::builder().name("do_it").route_name("DoIt").input_type("crate::In").output_type("crate::Out").codec_path("tonic::codec::ProstCodec").build())
+        .build();
+    let mut b = tonic_build::CodeGenBuilder::new();
+    if explicit {
+        b.emit_package(true);
+    }
+    if !emit {
+        b.emit_package(false);
+    }
+    let want_name = if emit && !pkg.is_empty() { format!("{}.Svc", pkg) } else { "Svc".to_string() };
+    let want_path = format!("/{}/DoIt", want_name);
+    for (side, ts) in [("client", b.generate_client(&svc, "")), ("server", b.generate_server(&svc, ""))] {
+        let file = match syn::parse2::<syn::File>(ts) {
+            Ok(f) => f,
+            Err(e) => {
+                ctx.violation("generated-code-unparseable", format!("{}: {}", side, e));
+                continue;
+            }
+        };
+        let mut l = Lits::default();
+        l.visit_file(&file);
+        let ok = l.0.iter().any(|x| *x == want_path) || (l.0.iter().any(|x| x == "DoIt") && l.0.iter().any(|x| x.contains(&want_name) && !x.contains(&format!(".{}", want_name))));
+        let wrong = if emit && !pkg.is_empty() { l.0.iter().any(|x| x == "/Svc/DoIt") } else { l.0.iter().any(|x| x.contains("pkg.v1.Svc") || x.contains("acme.Svc")) };
+        if !ok || wrong {
+            ctx.violation_class("codegen-builder-path", side, format!("CodeGenBuilder ({}): the generated {} does not use {:?}; path-like literals: {:?}", if explicit || !emit { "emit_package set" } else { "defaults" }, side, want_path, l.0.iter().filter(|x| x.contains('/') || x.contains("Svc")).collect::<Vec<_>>()));
+        }
+    }
+    ctx.count("codegen_builder.cases");
+    ctx.fingerprint(format!("cgb|{}|{}|{}", pkg, emit, explicit), true);
+}
+
 pub fn run(cfg: &RunCfg) -> Ctx {
     let mut all = Ctx::new();
+    all.merge(seq_cases(cfg, "codegen-builder", 9, |_, ctx, i| codegen_builder_case(ctx, i)));
     let dir = format!("{}/c11-gen-{}", std::env::var("VERIF_SCRATCH").unwrap_or_else(|_| "/verif/target".into()), std::process::id());
     let d2 = dir.clone();
     all.merge(par_cases(cfg, "tokens", cfg.n(1000, 16 * 4000), || (), move |_, rng, ctx, i| case(rng, ctx, i, &d2)));
